@@ -312,8 +312,9 @@ MT_POST = dict(
 )
 
 
-@contract("modifiers.py", "AdapterCutter.match_and_trim", props=["C03", "C09"])
+@contract("modifiers.py", "AdapterCutter.match_and_trim", props=["C03", "C09", "C17"])
 def match_and_trim(c):
+    c.runtime = {"module": "cmods", "name": "rounds", "replay_count": 5000}
     c.types(self=CutterT, read=Record)
     c.returns(TupT(Record, MatchesT))
     c.local_types["matches"] = MatchesT
@@ -338,6 +339,14 @@ def match_and_trim(c):
         "implies(no_linked(self.adapters), forall(t, 0, len(matches), elem(matches, t).__cls__ != LM()))",
         "is_none(trimmed_read.qualities) or len(val(trimmed_read.qualities)) == len(trimmed_read.sequence)",
     ])
+    # the rounds go on until nothing matches or the limit is reached (whatever the action), and what a round records is
+    # the adapters' match on the string that round searched
+    c.ghost("g_searched = trimmed_read.sequence", before="match = self.adapters.match_to(trimmed_read.sequence)")
+    c.ghost("__assert__(not forall(t, 0, len(self.adapters._adapters), mt_none(elem(self.adapters._adapters, t), g_searched)), "
+            "'a_round_records_a_match_only_if_some_adapter_matches_the_string_it_searched')", before="matches.append(match)")
+    c.ghost("__assert__(len(matches) == max(self.times, 0) or "
+            "forall(t, 0, len(self.adapters._adapters), mt_none(elem(self.adapters._adapters, t), trimmed_read.sequence)), "
+            "'rounds_stop_only_when_nothing_matches_or_the_limit_is_reached')", before="if not matches:")
     c.ensures(**MT_POST)
     c.mutant("trimmed_read = match.trimmed(trimmed_read)", "trimmed_read = match.trimmed(read)")
     c.mutant("self.adapters.match_to(trimmed_read.sequence)", "self.adapters.match_to(read.sequence)")
@@ -393,7 +402,7 @@ def install(world):
     stats_install(world)
 
 
-@contract("modifiers.py", "AdapterCutter.__call__", props=["C03", "C09", "C20"])
+@contract("modifiers.py", "AdapterCutter.__call__", props=["C03", "C09", "C20", "C17"])
 def adapter_cutter_call(c):
     c.types(self=CutterT, read=Record, info=InfoT)
     c.returns(Record)
@@ -465,7 +474,7 @@ def side_post(n, read, match):
     }
 
 
-@contract("modifiers.py", "PairedAdapterCutter.__call__", props=["C03", "C05", "C20"])
+@contract("modifiers.py", "PairedAdapterCutter.__call__", props=["C03", "C05", "C20", "C17"])
 def paired_adapter_cutter_call(c):
     c.runtime = {"module": "cmods", "name": "pair_adapters", "replay_count": 4000}
     c.types(self=PairedCutterT, read1=Record, read2=Record, info1=InfoT, info2=InfoT)
